@@ -2172,6 +2172,18 @@ class ExpressionEvaluator(Parser):
         """
         Apply the specified binary operator: lhs op rhs
         """
+        # Usual arithmetic conversions: if one operand is unsigned, the
+        # other is converted to unsigned. The operands of a shift are
+        # promoted separately, so the result has the type of lhs.
+        if op in ["<<", ">>"]:
+            rhs = type(lhs)(rhs)
+        elif op not in ["&&", "||"] and isinstance(
+            lhs,
+            np.uint64,
+        ) != isinstance(rhs, np.uint64):
+            lhs = np.uint64(lhs)
+            rhs = np.uint64(rhs)
+
         if op == "||":
             return np.int64(bool(lhs) or bool(rhs))
         elif op == "&&":
